@@ -103,6 +103,16 @@ def gen_cfgs(ctx, n):
         it = ['f1'] * cfg.accum + ['s']
         cfg.ops = it + ['l11'] + it * 2
         cfgs.append(cfg)
+    # directed: an interval scheduled with a non-integral factor (x3/2 per tick: 3 -> 4 -> 6 -> 9, truncated at every tick),
+    # checkpoint between the ticks: the resumed run's intervals are those of the uninterrupted one
+    for world in (1, 2):
+        cfg = kfacsim.Config(rng, world=world)
+        cfg.hyper['inv_update_steps'], cfg.hyper['factor_update_steps'] = 3, 1
+        cfg.hyper_changes = [{'inv_update_steps': 4}, {'inv_update_steps': 6}, {'inv_update_steps': 9}]
+        cfg.hyper_factors = [{'inv_update_steps': Fraction(3, 2)}] * 3
+        it = ['f1'] * cfg.accum + ['s']
+        cfg.ops = (it + ['h:0', 'l11'] + it + ['h:1'] + it + ['h:2'] + it * 10) if world == 1 else (it + ['h:0'] + it + ['h:1'] + it + ['h:2'] + it * 3 + ['l11'] + it * 8)
+        cfgs.append(cfg)
     # directed: a state kept in memory (not copied) while several factor updates go by, then rolled back to
     for world in (1, 2, 4):
         cfg = kfacsim.Config(rng, world=world)
